@@ -450,15 +450,35 @@ class C14(Prop):
                 return {"kind": kd, "event": k, "detail": f"source terminal {term}: got {body}"}
         return None
 
+    def project(self, body):
+        # the status queries made around a parked waiter are judged by the oracle, the model line is `wait=…` alone
+        i = body.find(" q=")
+        return body[:i] if i >= 0 and body.startswith("wait=") else body
+
     def oracle(self, case, lines, model_lines=None):
         kind = case.field("kind")[0]
         if kind == "statustake":
             return self.oracle_take(case, lines)
         if kind in ("statusrace", "statuswait"):
             for k in range(len(case.events)):
-                if lines.get(k) != "wait=returned":
+                b = lines.get(k) or ""
+                if b.split(" ")[0] != "wait=returned":
                     return {"kind": "lost-wakeup", "event": k,
                             "detail": f"wait_for_end did not return although the source has terminated: {lines.get(k)}"}
+                if " q=" in b:
+                    # is_completed / error_occur / is_closed asked by another thread WHILE the waiter is parked (the
+                    # source still running) and after the end: "reports completed or error exactly when the source has
+                    # terminated" (seed C14-10: a PARKED state of the flag read as completed)
+                    pre, post = b.split(" q=")[1].split("/")
+                    ev = case.events[k]
+                    err = isinstance(ev[1], list) and ev[1][0] == "e"
+                    want = "011" if err else "101"
+                    if pre != "000":
+                        return {"kind": "status-before-terminal", "event": k,
+                                "detail": f"completed/error/closed = {pre} while the source is still running (a waiter is parked)"}
+                    if post != want:
+                        return {"kind": "status-after-terminal", "event": k,
+                                "detail": f"completed/error/closed = {post} after {ev}, want {want}"}
             return None
         done = False          # future resolved / stream ended / consumer dropped: later polls are not judged
         yielded = 0
